@@ -8,13 +8,13 @@ map (any permutation), every well-formed value `v` without set types and every w
 the value's type conforms to, and every buffer content `b`:
 the generated `marshal env ord v t b` has the outcome of `JsonVal.marshal env v t` (ok / error / panic /
 unmodelled, up to the text of the message), and when that is `.ok j` the buffer afterwards holds
-`b ++ JsonGo.render j` — exactly the tokens of the model's token tree.  `assemble_render` shows the tree
-can be read back from those tokens, so "same tokens" is "same tree".
+`b ++ JsonGo.render j` — exactly the tokens of the model's token tree (`render` is the plain in-order
+token list of a tree: brackets, commas before every element but the first, `key : value` members).
 
 Outside the tie (listed): values with SET types (the Go code marshals the members in iteration order,
 the model in storage order and permutes afterwards: same document, but which error comes first differs
-when several members fail differently; `marshal_tie_sets` covers them under the total-oracle, capsule-free
-hypotheses of `rejects_unknown_marked_with_sets`), non-conforming (value, constraint) pairs (the public
+when several members fail differently — the set branch IS translated and generated, it is only not tied;
+the correspondence harness covers it), non-conforming (value, constraint) pairs (the public
 `Marshal` converts first: `marshalTop` is `.unmodelled` there), capsule payloads (`.unmodelled` on both
 sides).
 -/
@@ -360,6 +360,259 @@ theorem sortStrings_perm {l ns : List String} (hp : l.Perm ns) (ha : strictAsc n
   have hp2 : (sortStrings l).Perm ns := (sortStable_perm _ l).trans hp
   refine asc_subset_eq _ _ (strictAsc_of_sorted _ (sortStable_sorted l) (hp2.nodup_iff.mpr (strictAsc_nodup ha))) ha
     hp2.length_eq (fun x hx => hp2.mem_iff.mp hx)
+
+/-! ## the tie -/
+
+theorem psize_le_of_mem : ∀ (vs : List Payload) (v : Payload), v ∈ vs → psize v ≤ psizeL vs
+  | [], _, h => by simp at h
+  | x :: xs, v, h => by
+    simp only [psizeL]
+    rcases List.mem_cons.mp h with rfl | h'
+    · omega
+    · have := psize_le_of_mem xs v h'; omega
+
+/-- fuel that suffices for `marshal v t`: two calls per level of the value, one more for the wrapper -/
+def need (t : Ty) (v : Value) : Nat := 2 * psize v.v + (if t.isDyn && !v.ty.isDyn then 2 else 1)
+
+theorem zipOk_of (env : JEnv) (self : Value → Ty → Buf → Res Buf) (n : Nat)
+    (hself : ∀ (c : Payload) (e ve : Ty), TW e ve c → setFree ve = true → 2 * psize c + 2 ≤ n → SelfOk env self ⟨ve, c⟩ e) :
+    ∀ (es ves : List Ty) (vs : List Payload),
+      wfL es = true → wfL ves = true → setFreeL ves = true →
+      matchesL es ves = true → ves.length = vs.length → wfZip ves vs = true → 2 * psizeL vs + 2 ≤ n → ZipOk env self es ves vs
+  | [], [], [], _, _, _, _, _, _, _ => trivial
+  | [], _ :: _, _, _, _, _, h, _, _, _ => by simp [matchesL] at h
+  | _ :: _, [], _, _, _, _, h, _, _, _ => by simp [matchesL] at h
+  | [], [], _ :: _, _, _, _, _, h, _, _ => by simp at h
+  | _ :: _, _ :: _, [], _, _, _, _, h, _, _ => by simp at h
+  | e :: es, ve :: ves, v :: vs, h1, h2, h5, h7, h8, h9, hn => by
+    simp only [wfL, Bool.and_eq_true] at h1 h2
+    simp only [setFreeL, matchesL, wfZip, Bool.and_eq_true] at h5 h7 h9
+    simp only [psizeL] at hn
+    exact ⟨hself v e ve ⟨h1.1, h2.1, h7.1, h9.1⟩ h5.1 (by omega),
+      zipOk_of env self n hself es ves vs h1.2 h2.2 h5.2 h7.2 (by simpa using h8) h9.2 (by omega)⟩
+
+theorem fuel_tie (env : JEnv) (ord : MapOrder) (ho : ∀ l, (ord l).Perm l) :
+    ∀ (fuel : Nat) (v : Value) (t : Ty), TW t v.ty v.v → setFree v.ty = true → need t v ≤ fuel →
+      SelfOk env (marshal_fuel env ord fuel) v t
+  | 0, v, t, _, _, hn => by unfold need at hn; split at hn <;> omega
+  | f + 1, ⟨vt, p⟩, t, h, hs, hn => by
+    have hself : ∀ (c : Payload) (e ve : Ty), TW e ve c → setFree ve = true → 2 * psize c + 2 ≤ f →
+        SelfOk env (marshal_fuel env ord f) ⟨ve, c⟩ e := fun c e ve htw hsf hc =>
+      fuel_tie env ord ho f ⟨ve, c⟩ e htw hsf (by unfold need; split <;> simp only <;> omega)
+    have hkey : ∀ k : String, 4 ≤ f → SelfOk env (marshal_fuel env ord f) ⟨.string, .s k⟩ .string := fun k hf =>
+      hself (.s k) .string .string ⟨rfl, rfl, rfl, rfl⟩ rfl (by simp [psize]; omega)
+    intro b
+    simp only at h hs
+    simp only [marshal_fuel, JsonVal.marshal, marshalEntry, JsonGo.isMarked, JsonGo.isKnown, typeOf]
+    cases hm : p.isMarked
+    case true => simp [Agree]
+    cases hk : p.isKnown
+    case false => simp [Agree]
+    simp only [Bool.false_eq_true, if_false, Bool.not_true]
+    by_cases hd : (t.isDyn && !vt.isDyn) = true
+    · -- marshalDynamic
+      simp only [hd, if_true, marshalDynamic, marshalType, typeOf]
+      have hvv : (vt.isDyn && !vt.isDyn) = false := by cases vt.isDyn <;> rfl
+      have hrec := fuel_tie env ord ho f ⟨vt, p⟩ vt h.self hs
+        (by unfold need at hn ⊢; simp only [hd, if_true] at hn; simp only [hvv]; simp; omega)
+        (writeToks b [.lbrace, .str "value", .colon])
+      simp only [JsonVal.marshal] at hrec
+      rw [marshalEntry_same vt p _ hm hk] at hrec
+      cases htj : toJson vt <;> simp only [Res.map, split, Agree]
+      · cases hb : marshalKnown env vt vt p <;> simp only [hb, Agree] at hrec ⊢
+        · simp [writeToks, writeBytes, render, renderMembers, List.append_assoc] at hrec ⊢
+          simp [hrec]
+        · obtain ⟨c, hc⟩ := hrec; simp [hc]
+        · obtain ⟨c, hc⟩ := hrec; simp [hc]
+        · simp [hrec]
+      · exact ⟨_, rfl⟩
+      · exact ⟨_, rfl⟩
+    · simp only [hd, Bool.false_eq_true, if_false]
+      have hd' : t.isDyn = true → vt.isDyn = true := by
+        intro ht; simpa [ht] using hd
+      have hd2 : (t.isDyn && !vt.isDyn) = false := by simpa using hd
+      have hn' : 2 * psize p ≤ f := by unfold need at hn; simp [hd2] at hn; omega
+      have hw := h.wfp
+      have hc := h.conf
+      cases p with
+      | null => simp [isNull, Payload.unmark1, marshalKnown, Agree, writeToks, render]
+      | unk r => simp [Payload.isKnown, Payload.unmark1] at hk
+      | marked ms r => simp [Payload.isMarked] at hm
+      | bad w => cases vt <;> simp [wfP] at hw
+      | caps =>
+        cases vt <;> simp [wfP] at hw
+      | b x =>
+        cases vt with
+        | bool =>
+          cases t with
+          | bool => cases x <;> simp [isNull, Payload.unmark1, marshalKnown, Agree, writeToks, render, isPrimitiveType, isPrimTy,
+              Ty.isString, Ty.isNumber, Ty.isBool, JsonGo.isTrue, Res.bind]
+          | dyn => exact absurd (hd' rfl) (by simp [Ty.isDyn])
+          | _ => simp [«matches»] at hc
+        | _ => simp [wfP] at hw
+      | s x =>
+        cases vt with
+        | string =>
+          cases t with
+          | string => simp [isNull, Payload.unmark1, marshalKnown, Agree, writeToks, render, isPrimitiveType, isPrimTy,
+              Ty.isString, asString, jsonMarshalString, split, writeBytes, Res.bind]
+          | dyn => exact absurd (hd' rfl) (by simp [Ty.isDyn])
+          | _ => simp [«matches»] at hc
+        | _ => simp [wfP] at hw
+      | n x =>
+        cases vt with
+        | number =>
+          cases t with
+          | number =>
+            cases x <;> simp [isNull, Payload.unmark1, marshalKnown, Agree, writeToks, render, isPrimitiveType, isPrimTy,
+              Ty.isString, Ty.isNumber, asBigFloat, rawEqualsPosInf, rawEqualsNegInf, Num.isInf, writeNumText, Res.bind]
+            all_goals (try (rename_i neg; cases neg <;> simp))
+          | dyn => exact absurd (hd' rfl) (by simp [Ty.isDyn])
+          | _ => simp [«matches»] at hc
+        | _ => simp [wfP] at hw
+      | sset ids vs =>
+        cases vt <;> simp [wfP] at hw
+        simp [setFree] at hs
+      | seq vs =>
+        cases vt with
+        | list ve =>
+          cases t with
+          | list e =>
+            simp only [«matches»] at hc
+            simp only [wfP] at hw
+            have hel : ∀ v ∈ vs, SelfOk env (marshal_fuel env ord f) ⟨ve, v⟩ e := fun v hv =>
+              hself v e ve ⟨by simpa [wf] using h.wt, by simpa [wf] using h.wvt, hc, wfAll_mem hw v hv⟩
+                (by simpa [setFree] using hs)
+                (by have := psize_le_of_mem vs v hv; simp only [psize] at hn'; omega)
+            have hl := loop1_eq env ord (marshal_fuel env ord f) e ve vs (writeToks b [.lbrack]) true 0 hel
+            simp only [isNull, Payload.unmark1, marshalKnown, isPrimitiveType, isPrimTy, isListType, isSetType, Bool.or_false,
+              Bool.false_eq_true, if_false, if_true, elementType, Res.bind, elementIterator]
+            refine Agree.map ?_
+            cases hr : marshalAll env e ve vs <;> simp only [hr, Agree] at hl ⊢
+            · simp [writeToks, render, List.append_assoc] at hl ⊢
+              simp [hl]
+            · exact hl
+            · exact hl
+            · exact hl
+          | dyn => exact absurd (hd' rfl) (by simp [Ty.isDyn])
+          | _ => simp [«matches»] at hc
+        | tuple ves =>
+          cases t with
+          | tuple es =>
+            simp only [«matches»] at hc
+            simp only [wfP, Bool.and_eq_true, beq_iff_eq] at hw
+            have hz : ZipOk env (marshal_fuel env ord f) es ves vs :=
+              zipOk_of env _ f hself es ves vs (by simpa [wf] using h.wt) (by simpa [wf] using h.wvt)
+                (by simpa [setFree] using hs) hc hw.1 hw.2 (by simp only [psize] at hn'; omega)
+            have hl := loop3_eq env ord (marshal_fuel env ord f) es ves vs [] (writeToks b [.lbrack]) hz
+            simp only [isNull, Payload.unmark1, marshalKnown, isPrimitiveType, isPrimTy, isListType, isSetType, isMapType, isTupleType,
+              Bool.or_false, Bool.false_eq_true, if_false, if_true, tupleElementTypes, Res.bind, elementIterator]
+            refine Agree.map ?_
+            simp only [List.nil_append, List.length_nil] at hl
+            cases hr : marshalZip env es ves vs <;> simp only [hr, Agree] at hl ⊢
+            · simp [writeToks, render, List.append_assoc] at hl ⊢
+              simp [hl]
+            · exact hl
+            · exact hl
+            · exact hl
+          | dyn => exact absurd (hd' rfl) (by simp [Ty.isDyn])
+          | _ => simp [«matches»] at hc
+        | _ => simp [wfP] at hw
+      | smap ks vs =>
+        have hf4 : 4 ≤ f := by simp only [psize] at hn'; omega
+        cases vt with
+        | map ve =>
+          cases t with
+          | map e =>
+            simp only [«matches»] at hc
+            simp only [wfP, Bool.and_eq_true, beq_iff_eq] at hw
+            have hel : ∀ v ∈ vs, SelfOk env (marshal_fuel env ord f) ⟨ve, v⟩ e := fun v hv =>
+              hself v e ve ⟨by simpa [wf] using h.wt, by simpa [wf] using h.wvt, hc, wfAll_mem hw.2 v hv⟩
+                (by simpa [setFree] using hs)
+                (by have := psize_le_of_mem vs v hv; simp only [psize] at hn'; omega)
+            have hl := loop2_eq env ord (marshal_fuel env ord f) e ve ks vs (writeToks b [.lbrace]) true hw.1.1
+              (fun k _ => hkey k hf4) hel
+            simp only [isNull, Payload.unmark1, marshalKnown, isPrimitiveType, isPrimTy, isListType, isSetType, isMapType,
+              Bool.or_false, Bool.false_eq_true, if_false, if_true, elementType, Res.bind, elementIterator]
+            refine Agree.map ?_
+            cases hr : marshalAll env e ve vs <;> simp only [hr, Agree] at hl ⊢
+            · simp [writeToks, render, List.append_assoc] at hl ⊢
+              simp [hl]
+            · exact hl
+            · exact hl
+            · exact hl
+          | dyn => exact absurd (hd' rfl) (by simp [Ty.isDyn])
+          | _ => simp [«matches»] at hc
+        | object vns vts vos =>
+          cases t with
+          | object ns ts os =>
+            simp only [«matches», Bool.and_eq_true, beq_iff_eq] at hc
+            obtain ⟨hns, hc⟩ := hc
+            subst hns
+            simp only [wfP, Bool.and_eq_true, beq_iff_eq] at hw
+            obtain ⟨⟨hks, hvl⟩, hw⟩ := hw
+            subst hks
+            have hwt := h.wt
+            have hwvt := h.wvt
+            simp only [wf, Bool.and_eq_true, beq_iff_eq] at hwt hwvt
+            have hz : ZipOk env (marshal_fuel env ord f) ts vts vs :=
+              zipOk_of env _ f hself ts vts vs hwt.2 hwvt.2 (by simpa [setFree] using hs) hc hvl hw
+                (by simp only [psize] at hn'; omega)
+            have hl := loop5_eq env ord (marshal_fuel env ord f) vos ks ks ts vts vs [] [] [] [] (writeToks b [.lbrace])
+              rfl rfl rfl hwt.1.1.1 (fun _ _ => by simp) (strictAsc_nodup hwt.1.2) (fun k _ => hkey k hf4) hz
+            simp only [isNull, Payload.unmark1, marshalKnown, isPrimitiveType, isPrimTy, isListType, isSetType, isMapType, isTupleType,
+              isObjectType, Bool.or_false, Bool.false_eq_true, if_false, if_true, attributeTypes, Res.bind, beq_self_eq_true,
+              loop4_eq, List.nil_append, sortStrings_perm (ho ks) hwt.1.2]
+            refine Agree.map ?_
+            simp only [List.nil_append, List.length_nil] at hl
+            cases hr : marshalZip env ts vts vs <;> simp only [hr, Agree] at hl ⊢
+            · simp [writeToks, render, List.append_assoc] at hl ⊢
+              simp [hl]
+            · exact hl
+            · exact hl
+            · exact hl
+          | dyn => exact absurd (hd' rfl) (by simp [Ty.isDyn])
+          | _ => simp [«matches»] at hc
+        | _ => simp [wfP] at hw
+
+/-- THE TIE.  For every environment, every visiting order `ord` of Go's map `range` (any permutation), every buffer
+content `b`, every well-formed set-free value and well-formed constraint its type conforms to: the regenerated
+`marshal` answers as the hand-written `JsonVal.marshal` does, and on success the buffer holds `b` followed by exactly
+the tokens of the model's document. -/
+theorem marshal_tie (env : JEnv) (ord : MapOrder) (ho : ∀ l, (ord l).Perm l) (v : Value) (t : Ty) (b : Buf)
+    (hwt : wf t = true) (hwv : wf v.ty = true) (hconf : «matches» t v.ty = true) (hwf : wfP v.ty v.v = true)
+    (hs : setFree v.ty = true) :
+    Agree (Generated.JsonMarshalFns.marshal env ord v t b) (JsonVal.marshal env v t) (fun j => b ++ render j) :=
+  fuel_tie env ord ho (fuelFor v) v t ⟨hwt, hwv, hconf, hwf⟩ hs (by unfold need fuelFor; split <;> omega) b
+
+theorem Agree.ok_of {α} {g : Res Buf} {h : Res α} {f : α → Buf} (a : Agree g h f) {x : α} (hx : h = .ok x) : g = .ok (f x) := by
+  subst hx; exact a
+
+theorem Agree.err_of {α} {g : Res Buf} {h : Res α} {f : α → Buf} (a : Agree g h f) {c : String} (hx : h = .err c) :
+    ∃ c', g = .err c' := by
+  subst hx; exact a
+
+theorem Agree.of_ok {α} {g : Res Buf} {h : Res α} {f : α → Buf} (a : Agree g h f) {buf : Buf} (hg : g = .ok buf) :
+    ∃ x, h = .ok x ∧ buf = f x := by
+  cases h <;> simp only [Agree] at a
+  · rename_i x; exact ⟨x, rfl, by rw [hg] at a; cases a; rfl⟩
+  · obtain ⟨c, hc⟩ := a; rw [hg] at hc; cases hc
+  · obtain ⟨c, hc⟩ := a; rw [hg] at hc; cases hc
+  · rw [hg] at a; cases a
+
+/-- the generated `marshalDynamic` is the model's wrapper: `{"value": <v against its own type>, "type": <MarshalType>}` -/
+theorem marshalDynamic_tie (env : JEnv) (ord : MapOrder) (ho : ∀ l, (ord l).Perm l) (v : Value) (b : Buf)
+    (hwv : wf v.ty = true) (hwf : wfP v.ty v.v = true) (hs : setFree v.ty = true) (tj j : Json)
+    (htj : toJson v.ty = .ok tj) (hj : JsonVal.marshal env v v.ty = .ok j) :
+    marshalDynamic env ord (Generated.JsonMarshalFns.marshal_fuel env ord (fuelFor v)) v b =
+      .ok (b ++ render (.obj ["value", "type"] [j, tj])) := by
+  have h := fuel_tie env ord ho (fuelFor v) v v.ty ⟨hwv, hwv, matches_refl _, hwf⟩ hs
+    (by unfold need fuelFor; split <;> omega) (writeToks b [.lbrace, .str "value", .colon])
+  rw [hj] at h
+  simp only [Agree] at h
+  simp [marshalDynamic, marshalType, typeOf, htj, Res.map, split, writeToks, writeBytes, render, renderMembers,
+    List.append_assoc] at h ⊢
+  simp [h]
 
 end JsonMarshalFnsTie
 end CtyModel
